@@ -3,6 +3,7 @@ CONSTANTS
   MaxIdx = 4
   MaxTerm = 2
   MaxReady = 3
+  InstallSaveFirst = FALSE
   SnapshotMustBeInWal = FALSE
   MaxCrash = 1
 INVARIANT TypeOK
